@@ -447,3 +447,40 @@ def _minmax(ctx, a, ty, c):
     if c.endswith("min") or "::min::" in c:
         return Int(z3.If(z3.ULE(x.e, y.e), x.e, y.e), x.bits)
     return Int(z3.If(z3.UGE(x.e, y.e), x.e, y.e), x.bits)
+
+
+@summary(r"^U256::as_(u8|u16|u32|u64|u128|usize)$")
+def _u256_as(ctx, a, ty, c):
+    t = c.rsplit("_", 1)[1]
+    b = INT_TYPES[t][0]
+    return Int(z3.Extract(b - 1, 0, ctx.force(a[0]).e), b)
+
+
+@summary(r"^<(u8|u16|u32|u64|u128|usize) as TryFrom<U256>>::try_from$|^<U256 as TryInto<(u8|u16|u32|u64|u128|usize)>>::try_into$")
+def _u256_try(ctx, a, ty, c):
+    m = re.search(r"(u8|u16|u32|u64|u128|usize)", c)
+    b = INT_TYPES[m.group(1)][0]
+    x = ctx.force(a[0])
+    fits = z3.ULE(x.e, z3.BitVecVal((1 << b) - 1, 256))
+    if ctx.branch([fits, z3.Not(fits)]) == 0:
+        return ok(ty, Int(z3.Extract(b - 1, 0, x.e), b))
+    return err(ty, Obj("TryFromIntError"))
+
+
+@summary(r"^<U256 as From<(u8|u16|u32|u64|u128|usize|bool)>>::from$|^U256::new$|^U256::from_words$")
+def _u256_from(ctx, a, ty, c):
+    if c.endswith("from_words"):
+        hi, lo = ctx.force(a[0]), ctx.force(a[1])
+        return Int(z3.Concat(hi.e, lo.e), 256)
+    x = ctx.force(a[0])
+    if isinstance(x, Bool):
+        return Int(z3.If(x.e, z3.BitVecVal(1, 256), z3.BitVecVal(0, 256)), 256)
+    return Int(z3.ZeroExt(256 - x.bits, x.e), 256)
+
+
+@summary(r"^<U256 as Partial(Ord|Eq)(<U256>)?>::(lt|le|gt|ge|eq|ne)$")
+def _u256_cmp(ctx, a, ty, c):
+    x, y = ctx.force(load(ctx, a[0])), ctx.force(load(ctx, a[1]))
+    op = c.rsplit("::", 1)[1]
+    f = {"lt": z3.ULT, "le": z3.ULE, "gt": z3.UGT, "ge": z3.UGE, "eq": lambda p, q: p == q, "ne": lambda p, q: p != q}[op]
+    return Bool(f(x.e, y.e))
